@@ -54,6 +54,7 @@ structure Srv where
 /-- what the user's handler does when it is called -/
 inductive HAct
   | ok | raise | echo | disc | echoRaise | discRaise
+  | kick      -- `handler.update` only: disconnect every connected client ("end of the round"); a no-op in the per-client handlers
   deriving DecidableEq, Repr
 
 def HAct.raises : HAct → Bool
@@ -217,6 +218,10 @@ def sweepTemps (C : Crypto) (sz : Sizes) (t : Int) : Srv → List (Addr × Ent) 
       let (s2, ev) := sweepTemps C sz t { s with temps := pset s.temps addr { e with conn := c3 } } rest
       (s2, out ++ ev)
 
+/-- `handler.update` calling `client.disconnect()` on every connected client -/
+def kickAll (s : Srv) : Srv :=
+  { s with conns := s.conns.map (fun p => (p.1, { p.2 with conn := Conn.disconnect p.2.conn none })) }
+
 /-- one iteration of the main loop: queued datagrams at clock `tq`, `handler.update`, the two
     sweeps and the sends at clock `ts` -/
 def iter (sz : Sizes) (C : Crypto) (s : Srv) (tq ts : Int) (batch : List Item) (acts : List HAct) :
@@ -224,7 +229,8 @@ def iter (sz : Sizes) (C : Crypto) (s : Srv) (tq ts : Int) (batch : List Item) (
   let (s1, acts1, e1) := handleItems sz C tq s batch acts
   let (a, acts2) := nextAct acts1
   let eu := [SEvent.update] ++ (if a.raises then [.contained "update"] else [])
-  let (s2, _, e2) := sweepConns C sz ts s1 s1.conns acts2
+  let s1k := if a = .kick then kickAll s1 else s1
+  let (s2, _, e2) := sweepConns C sz ts s1k s1k.conns acts2
   let (s3, e3) := sweepTemps C sz ts s2 s2.temps
   (s3, e1 ++ eu ++ e2 ++ e3)
 
